@@ -131,6 +131,9 @@ class RobotModel:
             elif k == "assign":
                 if self.vals is not None and (a[1], a[2]) in self.vals:
                     self.vals[(a[1], a[2])] = a[3]
+            elif k == "clobber":
+                if a[1] in self.fb_nt:
+                    self.fb_nt[a[1]] = a[2]
         if n >= self.cap:
             self.done = True
         self.expiry += self.p
